@@ -185,7 +185,8 @@ PROPS = {
         "run_module": "Model.Graph Model.Walk Model.RunC15 Model.RunC02 Model.RunC14 Model.Prune Model.RunC17 Model.Builder Model.RunC01 Model.Jsr Model.RunJsr Model.RunJsrAll",
         "run_fn": "run_c03",
         "level": "proof",
-        "pinned_theorems": ["C03_no_pending", "C03_step_invariant", "C03_error_entry",
+        "pinned_theorems": ["C03_no_pending", "C03_terminates", "C03_reload_terminates", "C03_loop_step_decreases",
+                            "C03_build_total", "C03_step_invariant", "C03_error_entry",
                             "C03_registry_no_pending", "C03_registry_errors_under_own_specifier"],
         "rule": ("fault enumeration: EVERY assignment of a response kind {module, missing, load error, external, "
                  "unparsable, self-redirect, redirect to each other specifier} to each of the 4 specifiers of a base "
@@ -201,7 +202,7 @@ PROPS = {
             "worlds where a module is answered under another final specifier are compared with the model but left out of the fault-locality oracle",
             "fixed: F-C03b (self-redirect left a pending entry) 76358fe; F-C03c (unjoinable export value panicked) a6fa026; F-C03d (add_dependency panicked on a package never ensured) ccf7036; F-C03e (a build that never returned: two-hop redirect whose end imports the first hop) 50c93c4 - all found by this machinery and repaired in /repo",
         ],
-        "partial": ["termination of the build loop is not proved (fuel; checked per case by the model never running out of fuel and the real build returning under a watchdog)", "npm resolver faults sampled only (the no-pending theorems cover the resolver stage: npm_fill adds finished entries only)"],
+        "partial": ["termination is proved for stage B1 (C03_terminates: a strictly decreasing measure over every loop iteration, any world, any starting graph); for the registry stage it is checked per case (the model never running out of fuel, the real build returning under a watchdog)", "npm resolver faults sampled only (the no-pending theorems cover the resolver stage: npm_fill adds finished entries only)"],
     },
     "C04": {
         "harness": "c04",
